@@ -58,9 +58,10 @@ def mkSeq : SeqKind → List PyVal → PyVal
   | .list, xs => .list xs
   | .deque, xs => .deque xs
 
-/-- Python objects without `__hash__` on the modelled fragment -/
+/-- Python objects for which `x in some_set` raises TypeError (unhashable); a `set` is looked up
+    as its frozenset, so it does not raise -/
 def unhashable : PyVal → Bool
-  | .list _ | .dict _ | .deque _ | .set false _ => true
+  | .list _ | .dict _ | .deque _ => true
   | _ => false
 
 /-- remove later `==`-duplicates (building a Python set from a list) -/
@@ -261,6 +262,7 @@ def validate (O : Oracles) : FieldDecl → PyVal → R PyVal
   | .notF fs, v => if countOk O fs v == 0 then .ok v else .error .valueErr
   | .noneF, v => vNone v
   | .anything, v => .ok v
+termination_by structural f _ => f
 
 /-- positional items: element `i` through field `i`; surplus elements are kept as they are -/
 def validateZip (O : Oracles) : List FieldDecl → List PyVal → R (List PyVal)
@@ -268,6 +270,7 @@ def validateZip (O : Oracles) : List FieldDecl → List PyVal → R (List PyVal)
   | _ :: _, [] => .ok []
   | f :: fs, x :: xs =>
     bindE (validate O f x) fun y => bindE (validateZip O fs xs) fun ys => .ok (y :: ys)
+termination_by structural fs _ => fs
 
 /-- `AnyOf`: the first accepting option wins and its stored value is kept -/
 def validateAny (O : Oracles) : List FieldDecl → PyVal → R PyVal
@@ -275,16 +278,19 @@ def validateAny (O : Oracles) : List FieldDecl → PyVal → R PyVal
   | f :: fs, v => match validate O f v with
     | .ok y => .ok y
     | .error _ => validateAny O fs v
+termination_by structural fs _ => fs
 
 /-- number of options that accept `v` -/
 def countOk (O : Oracles) : List FieldDecl → PyVal → Nat
   | [], _ => 0
   | f :: fs, v => (match validate O f v with | .ok _ => 1 | .error _ => 0) + countOk O fs v
+termination_by structural fs _ => fs
 
 /-- `AllOf`: every option must accept; the first failure propagates -/
 def validateEach (O : Oracles) : List FieldDecl → PyVal → R Unit
   | [], _ => .ok ()
   | f :: fs, v => bindE (validate O f v) fun _ => validateEach O fs v
+termination_by structural fs _ => fs
 
 /-- the declared-field part of `Structure.__init__`: for every field (in field order) take the
     supplied argument, else the default, validate and store -/
@@ -297,6 +303,7 @@ def validateFields (O : Oracles) (c : ClassOpts) (defaults kw : List (String × 
     | some v =>
       bindE (validate O f v) fun y =>
       bindE (validateFields O c defaults kw rest) fun ys => .ok ((name, y) :: ys)
+termination_by structural fs => fs
 end
 
 /-- keyword construction `cls(**kw)` of a class declaration -/
